@@ -5,8 +5,12 @@
      lib/j5schema/schema_from_desc.go  PackageSetFromSourceAPI: apiPackage.Name and
         fmt.Sprintf("%s.%s", apiPackage.Name, subPkg.Name).
    The API is a list of packages (listed ones first, then the "indirect" ones created on demand),
-   each with its schemas and its sub-packages.  Services / topics (addStructure) are not modelled:
-   the generated descriptor sets have none.  No proofs here. *)
+   each with its schemas and its sub-packages.  addStructure (services / topics) is modelled as far
+   as it decides the outcome of APIFromImage and the sub-packages of the API: splitPackageParts of
+   every service's package, the listed-package test, getSubPackage, the dispatch on the service name,
+   and every error of buildService / buildMethod / buildTopic / buildTopicMethod; the Service / Topic
+   values themselves are not part of the schema round trip (PackageSetFromSourceAPI does not read
+   them) and are not modelled.  No proofs here. *)
 From Coq Require Import String List NArith ZArith Bool.
 From J5V.lib Require Import Outcome.
 From J5V.model Require Import ReflectDesc ReflectSchema Reflect ExportForm Export.
@@ -119,17 +123,135 @@ Fixpoint route_all (api : xapi) (entries : list (ref * xroot)) : res xapi :=
 (* the packages the image lists *)
 Definition api_init (wanted : list str) : xapi := map (fun w => XPackage w false [] []) wanted.
 
+(* ---------------------------------------------------------------- addStructure *)
+(* the (google.api.http) rule of a method: its pattern *)
+Inductive httprule := HNone | HGet (path : str) | HPost (path : str) | HPut (path : str) | HDelete (path : str)
+                    | HPatch (path : str) | HOther.
+(* a method: name; input message (package, name, field names); output message (name, full name);
+   http rule; (j5.ext.v1.method).state_query = Some (get, list, list_events) *)
+Inductive methd := Meth (name in_pkg in_name : str) (in_fields : list str) (out_name out_full : str)
+                        (http : httprule) (state_query : option (bool * bool * bool)).
+(* (j5.ext.v1.service).type *)
+Inductive svckind := SKNone | SKStateQuery | SKStateCommand.
+Inductive svcd := Svc (pkg name : str) (kind : svckind) (methods : list methd).
+
+Definition s_Service := bytes "Service".
+Definition s_Sandbox := bytes "Sandbox".
+Definition s_Events := bytes "Events".
+Definition s_Topic := bytes "Topic".
+Definition s_Request := bytes "Request".
+Definition s_Response := bytes "Response".
+Definition s_Message := bytes "Message".
+Definition s_HttpBody := bytes "google.api.HttpBody".
+Definition s_Empty := bytes "google.protobuf.Empty".
+Definition slash : N := 47%N.
+
+(* strings.Split(s, "/") *)
+Fixpoint split_slash (s : str) : list str :=
+  match s with
+  | [] => [[]]
+  | c :: r =>
+      if N.eqb c slash then [] :: split_slash r
+      else match split_slash r with
+           | h :: t => (c :: h) :: t
+           | [] => [[c]]
+           end
+  end.
+
+(* one part of the http path: "{field}" must name a field of the input; any other part must not
+   contain one of the characters of "{}*:" *)
+Definition path_part_ok (in_fields : list str) (part : str) : bool :=
+  match part with
+  | [] => true
+  | c :: _ =>
+      if N.eqb c 123 && N.eqb (last part 0%N) 125 then
+        (* part[1 : len(part)-1] *)
+        existsb (str_eqb (removelast (tl part))) in_fields
+      else negb (existsb (fun ch => N.eqb ch 123 || N.eqb ch 125 || N.eqb ch 42 || N.eqb ch 58) part)
+  end.
+
+(* buildMethod *)
+Definition build_method (svc_pkg : str) (kind : svckind) (m : methd) : res unit :=
+  match m with Meth name in_pkg in_name in_fields out_name out_full http sq =>
+    if negb (str_eqb in_pkg svc_pkg && str_eqb in_name (name ++ s_Request)) then RErr "j5 service input message must be <method>Request"
+    else if negb (str_eqb out_name (name ++ s_Response)) && negb (str_eqb out_full s_HttpBody) then RErr "j5 service output message must be <method>Response"
+    else
+      rbind (match http with
+             | HNone => RErr "missing http rule"
+             | HOther => RErr "unsupported http method"
+             | HGet p | HPost p | HPut p | HDelete p | HPatch p => ROk p
+             end) (fun path =>
+      if negb (forallb (path_part_ok in_fields) (split_slash path)) then RErr "path field not found in input / invalid path part"
+      else match sq with
+           | None => ROk tt
+           | Some (get, list, list_events) =>
+               match kind with
+               | SKStateQuery => if get || list || list_events then ROk tt else RErr "invalid state query part"
+               | _ => RErr "service is not a state query service, but has state query annotations"
+               end
+           end)
+  end.
+
+(* buildTopicMethod *)
+Definition build_topic_method (svc_pkg : str) (m : methd) : res unit :=
+  match m with Meth name in_pkg in_name _ _ out_full _ _ =>
+    if negb (str_eqb in_pkg svc_pkg && str_eqb in_name (name ++ s_Message)) then RErr "j5 topic input message must be <method>Message in the same package"
+    else if negb (str_eqb out_full s_Empty) then RErr "j5 topic output message must be google.protobuf.Empty"
+    else ROk tt
+  end.
+
+Fixpoint all_ok {A} (f : A -> res unit) (l : list A) : res unit :=
+  match l with
+  | [] => ROk tt
+  | x :: r => rbind (f x) (fun _ => all_ok f r)
+  end.
+
+(* getSubPackage alone: the sub-package is created when it is not there *)
+Fixpoint touch_sub (subs : list xsub) (s : str) : list xsub :=
+  match subs with
+  | [] => [XSub s []]
+  | XSub s' l :: r => if str_eqb s' s then XSub s' l :: r else XSub s' l :: touch_sub r s
+  end.
+
+(* one service of addStructure *)
+Definition add_service (wanted : list str) (api : xapi) (sv : svcd) : res xapi :=
+  match sv with Svc pkg name kind methods =>
+    rbind (split_package pkg) (fun id =>
+    if negb (existsb (str_eqb (fst id)) wanted) then ROk api
+    else match snd id with
+         | None => RErr "missing sub-package name"
+         | Some sub =>
+             let api1 := put_pkg api (fst id) (fun pk => match pk with XPackage pn ind l subs => XPackage pn ind l (touch_sub subs sub) end) in
+             if has_suffix s_Service name || has_suffix s_Sandbox name then
+               rbind (all_ok (build_method pkg kind) methods) (fun _ => ROk api1)
+             else if has_suffix s_Events name then ROk api1
+             else if has_suffix s_Topic name then
+               rbind (all_ok (build_topic_method pkg) methods) (fun _ => ROk api1)
+             else RErr "unsupported service name"
+         end)
+  end.
+
+(* addStructure over the services of every file of the image, in the order they are visited *)
+Fixpoint add_structure (wanted : list str) (api : xapi) (svcs : list svcd) : res xapi :=
+  match svcs with
+  | [] => ROk api
+  | sv :: r => rbind (add_service wanted api sv) (fun api1 => add_structure wanted api1 r)
+  end.
+
 (* the selector of APIFromImage: files whose package name has a listed package as a prefix *)
 Definition selected (D : desc) (wanted : list str) : list filed :=
   filter (fun f => match f with File _ pkg _ _ => existsb (fun w => has_prefix w pkg) wanted end) (d_files D).
 
-(* addSchemas on the reflected set *)
-Definition api_of_set (wanted : list str) (S : sset) : outcome xapi :=
-  obind (export_set S) (fun X => lift (route_all (api_init wanted) X)).
+(* addSchemas on the reflected set, into the API addStructure left *)
+Definition api_of_set_from (api0 : xapi) (S : sset) : outcome xapi :=
+  obind (export_set S) (fun X => lift (route_all api0 X)).
+Definition api_of_set (wanted : list str) (S : sset) : outcome xapi := api_of_set_from (api_init wanted) S.
 
-(* APIFromImage for the selected files visited in the order [fs] *)
-Definition api_from_image (D : desc) (wanted : list str) (fs : list filed) : outcome xapi :=
-  obind (reflect D fs) (api_of_set wanted).
+(* APIFromImage: addStructure over the services [svcs] of the image, then addSchemas for the selected
+   files visited in the order [fs] *)
+Definition api_from_image (D : desc) (svcs : list svcd) (wanted : list str) (fs : list filed) : outcome xapi :=
+  obind (lift (add_structure wanted (api_init wanted) svcs)) (fun api0 =>
+  obind (reflect D fs) (api_of_set_from api0)).
 
 (* what PackageSetFromSourceAPI walks: every schema of every package and sub-package under the
    name it files it under *)
